@@ -395,13 +395,21 @@ def apply_group(repo, d):
         elif kind == "loop":
             p = nth_loop_brace(body, int(arg))
             ins.append((p, "\n" + text + "\n"))
+        elif kind == "loopbody":
+            p = nth_loop_brace(body, int(arg)) + 1
+            ins.append((p, "\n" + text + "\n"))
         elif kind == "exit":
             ins.append((len(body.rstrip()) if False else None, text))
     tail = [t for (p, t) in ins if p is None]
     ins = sorted([(p, t) for (p, t) in ins if p is not None], key=lambda x: -x[0])
     for p, t in ins:
         body = body[:p] + t + body[p:]
-    out = sig + "\n" + d.get("contract", "") + "\n{" + body + "}\n"
+    gen = d["item"]
+    if d.get("as"):
+        gen = (gen.rsplit("::", 1)[0] + "::" if "::" in gen else "") + d["as"]
+    meta["gen_name"] = gen
+    has_req = bool(re.search(r"\brequires\b", d.get("contract", "")))
+    out = sig + "\n" + d.get("contract", "") + f"\n//VPV-BODY-START:{gen}:{'req' if has_req else 'noreq'}\n{{" + body + "}\n"
     return out, meta
 
 
@@ -450,6 +458,7 @@ def expand_template(repo, tmpl_text):
                     elif arg.startswith("before="): cur = ("before", arg[7:])
                     else: raise LostAnchor(f"bad HINT {arg}")
                 elif k == "LOOP": cur = ("loop", arg)
+                elif k == "LOOPBODY": cur = ("loopbody", arg)
                 elif k == "REWRITE":
                     r = re.match(r'"(.*)"\s*->\s*"(.*)"(?:\s+count=(\d+))?$', arg)
                     if not r: raise LostAnchor(f"bad REWRITE {arg}")
